@@ -220,6 +220,7 @@ class Index:
         self._mro_cache: Dict[str, List[ClassInfo]] = {}
         self.alpha_renamed: List[Tuple[str, str, str, str]] = []
         self.compares_mirrored: List[Tuple[str, str, str, str]] = []
+        self.ifs_turned: List[Tuple[str, str, str, str]] = []
         self._load()
 
     # ---------------------------------------------------------------- load
@@ -255,6 +256,8 @@ class Index:
                     (rel,) + t for t in alpha.normalise(rel, mod.tree))
                 self.compares_mirrored.extend(
                     (rel,) + t for t in alpha.orient(rel, mod.tree))
+                self.ifs_turned.extend(
+                    (rel,) + t for t in alpha.orient_ifs(rel, mod.tree))
                 _set_parents(mod.tree)
                 self.modules[name] = mod
         for mod in self.modules.values():
